@@ -138,6 +138,48 @@ def _edit(w, op, by_name, res, fp):
         body = new_lines[idx][1].strip()
         new_lines[idx][1] = (" " * (n.indent + 4) if (payload or 0) % 2 == 0 or n.indent == 0 else " " * (n.indent - 4)) + body
         expect = "reject"
+    elif kind in ("macro_add", "macro_change", "macro_remove"):
+        # C41: edits of a macro definition. Expectation from what the harness itself observed: the macro has started
+        # if one of its body tokens took effect or a call of it is reported executed; it has not if no call of it is
+        # reported started. In between (a call line started, nothing of the body seen yet) nothing is expected.
+        macros = [n for n in nodes if n.kind == "Macro" and n.parent is tree]
+        names = [n.arg for n in macros]
+        macros = [n for n in macros if names.count(n.arg) == 1 and any(c.token for c in n.children)]
+        if not macros:
+            fp.append("edit-none")
+            return
+        mac = macros[k % len(macros)]
+        calls = [n for n in nodes if n.kind == "Call macro" and n.arg == mac.arg]
+        seen = {(e[1], e[2]) for e in w.effects}
+        all_tokens = [n.token for n in nodes if n.token]
+        body_seen = any(c.token in seen for c in mac.walk() if c.token and all_tokens.count(c.token) == 1)
+        if body_seen or any(c.id in executed for c in calls):
+            expect = "reject"
+        elif not any(c.id in touched for c in calls):
+            expect = "free"
+        else:
+            expect = "unknown"
+        ids = [x.id for x in mac.walk()]
+        first = next(i for i, (lid, _) in enumerate(lines) if lid == mac.id)
+        last = max(i for i, (lid, _) in enumerate(lines) if lid in ids)
+        ind = " " * (mac.indent + 4)
+        text = payload if isinstance(payload, str) else payload[0]
+        if kind == "macro_add":
+            new_lines = lines[:last + 1] + [[nid(), ind + text]] + lines[last + 1:]
+        elif kind == "macro_change":
+            body = [c for c in mac.children if c.token is not None and not c.children]
+            if not body:
+                fp.append("edit-none")
+                return
+            tgt = body[(k // 7) % len(body)]
+            idx = next(i for i, (lid, _) in enumerate(lines) if lid == tgt.id)
+            new_lines = [list(x) for x in lines]
+            new_lines[idx][1] = ind + text
+        else:
+            # the definition disappears; calls of it that have not started are removed with it
+            drop = set(ids) | {c.id for c in calls if c.id not in touched}
+            new_lines = [x for x in lines if x[0] not in drop]
+        w.macro_edit = (mac.arg, expect)
     elif kind == "same":
         new_lines = lines
     else:
